@@ -101,6 +101,27 @@ Fixpoint c16_sem_fuel (fuel : nat) (inp : list N) (acc : list c16_sem_token) : o
 
 Definition c16_sem (inp : list N) : option (list c16_sem_token) := c16_sem_fuel (S (length inp)) inp [].
 
+(* one step of the reading, as a function of its own (used to state hypotheses about a stream step by step) *)
+Inductive c16_step_res :=
+| CsEnd | CsInvalid | CsStep (toks : list c16_sem_token) (rest : list N).
+
+Definition c16_step (inp : list N) : c16_step_res :=
+  match spec_next inp with
+  | LexEnd => CsEnd
+  | LexInvalid => CsInvalid
+  | LexTok t rest =>
+      match t with
+      | PKeyword w =>
+          if list_eqb N.eqb w c16_kw_ID then
+            match c16_after_ID rest with
+            | Some (data, rest') => CsStep [CsOp w; CsImage data] rest'
+            | None => CsInvalid
+            end
+          else CsStep [CsOp w] rest
+      | _ => CsStep [c16_sem_of t] rest
+      end
+  end.
+
 (* the images of a stream, in order (used for the externalisation clause) *)
 Definition c16_sem_images (ts : list c16_sem_token) : list (list N) :=
   flat_map (fun t => match t with CsImage d => [d] | _ => [] end) ts.
